@@ -18,7 +18,7 @@
    [spec_pass] (Proofs.v) is the table of the property text, transcribed
    independently of the code. *)
 From Coq Require Import ZArith List Bool.
-From Verif Require Import C07.Model C07.Proofs gen.Gen_C07.
+From Verif Require Import C07.Model C07.Proofs C07.Reconf gen.Gen_C07.
 Import ListNotations.
 Open Scope Z_scope.
 
@@ -384,6 +384,125 @@ Theorem c07_overlap_loops_isolated :
     xtrace H K (if b then cf1 else cf0) (if b then bc1 else bc0) (proj b tops).
 Proof. exact overlap_loops_isolated_proof. Qed.
 Print Assumptions c07_overlap_loops_isolated.
+
+(* ---------------------------------------------------------------------- *)
+(* Reconfiguration of a live loop object.  Every constructor argument ends up in a public
+   attribute that run() reads again at each request, so "the configured gate logic" (assessor
+   name, TTL, ...) is what is configured WHEN A REPLY IS PRODUCED, not what the loop was built
+   with.  A history with reconfiguration [rop] is an overlapping history ([RX o]) with assignments
+   [RSet s] to gate_logic / assessor.name / enable_cache / cache_ttl / enable_circuit_breaker /
+   failure_threshold / recovery_timeout anywhere in it - also between the two halves of requests
+   in flight.  [rtrace H K cf0 bc0 ops], [cf0]/[bc0] being the configuration at construction, has
+   one event per operation: [RvOp cf bc e] = the event [e] of the operation as before, carried out
+   under the configuration [cf]/[bc] then in force; [RvSet cf bc n] = an assignment, [cf]/[bc] in
+   force from then on.  [rreply e] = (configuration in force, request, reply) of an event,
+   [rdone_at e] the clock value at which that reply was produced. *)
+
+(* The histories of all theorems above are the histories without an assignment. *)
+Theorem c07_reconf_none_is_overlap :
+  forall (H K : str -> str) cf bc ops,
+    rtrace H K cf bc (map RX ops) = map (RvOp cf bc) (xtrace H K cf bc ops).
+Proof. exact reconf_none_is_overlap_proof. Qed.
+Print Assumptions c07_reconf_none_is_overlap.
+
+(* An assignment changes the configuration and nothing else (cache, breaker state and the
+   requests in flight stay as they are) ... *)
+Theorem c07_reconf_assignment_touches_configuration_only :
+  forall (H K : str -> str) cf bc x s,
+    rstep H K (cf, bc, x) (RSet s) =
+    (fst (apply_setting s (cf, bc)), snd (apply_setting s (cf, bc)), x,
+     RvSet (fst (apply_setting s (cf, bc))) (snd (apply_setting s (cf, bc))) (length (fst (fst x)))).
+Proof. exact reconf_set_step_proof. Qed.
+Print Assumptions c07_reconf_assignment_touches_configuration_only.
+
+(* ... and the configuration in force at any event is the one given at construction with the
+   assignments made so far applied in order: no operation is carried out under a configuration
+   that an assignment has already replaced. *)
+Theorem c07_reconf_config_in_force :
+  forall (H K : str -> str) cf0 bc0 ops i e,
+    nth_error (rtrace H K cf0 bc0 ops) i = Some e ->
+    rev_config e = config_after (cf0, bc0) (firstn (S i) ops).
+Proof. exact reconf_config_in_force_proof. Qed.
+Print Assumptions c07_reconf_config_in_force.
+
+(* A request that was in flight while the loop was reconfigured is judged on its own prompt and
+   its own agents' verdicts under the configuration (gate logic, assessor name) in force when it
+   RETURNS - the configuration at construction with the assignments before its end applied. *)
+Theorem c07_reconf_completed_is_own_gate :
+  forall (H K : str -> str) cf0 bc0 ops i cf bc id q now rp,
+    nth_error (rtrace H K cf0 bc0 ops) i = Some (RvOp cf bc (EvCompleted id q now rp)) ->
+    nth_error ops i = Some (RX (XEnd id now)) /\ In (RX (XBegin id q)) (firstn i ops) /\
+    (cf, bc) = config_after (cf0, bc0) (firstn i ops) /\
+    r_cached rp = false /\ r_core rp = outcome H cf q /\ r_exec_called rp = true /\
+    r_assess_called rp = negb (raised (q_exec q)) /\ r_shown rp = Some (q_prompt q).
+Proof. exact reconf_completed_is_own_gate_proof. Qed.
+Print Assumptions c07_reconf_completed_is_own_gate.
+
+(* First conjunct, for every reply of every history with reconfiguration: a reply that is not
+   blocked is the gate's outcome for a request of the history with the same cache key whose
+   agents' verdicts satisfied the gate logic CONFIGURED WHEN THAT REQUEST WAS DECIDED - for a
+   reply that is not a cached one this is the request itself and the logic in force at this very
+   moment ([cfj = cf]), never the logic the loop was built with or one configured earlier. *)
+Theorem c07_reconf_pass_only_if :
+  forall (H K : str -> str) cf0 bc0 ops i cf bc e q rp,
+    nth_error (rtrace H K cf0 bc0 ops) i = Some (RvOp cf bc e) -> xreply e = Some (q, rp) ->
+    c_blocked (r_core rp) = false ->
+    exists j ej cfj qj rj,
+      (j <= i)%nat /\ nth_error (rtrace H K cf0 bc0 ops) j = Some ej /\ rreply ej = Some (cfj, qj, rj) /\
+      K (q_prompt qj) = K (q_prompt q) /\ r_cached rj = false /\
+      (r_cached rp = false -> j = i /\ cfj = cf) /\
+      r_core rp = outcome H cfj qj /\
+      spec_pass (cf_logic cfj) (q_exec qj) (q_assess qj) = true.
+Proof. exact reconf_pass_only_if_proof. Qed.
+Print Assumptions c07_reconf_pass_only_if.
+
+(* Cached replies are identical in verdict to the original, across reconfiguration: a reply
+   marked cached has the core of the uncached reply of a request for the SAME prompt that had
+   returned before (the gate's outcome under the configuration of THAT moment), is served within
+   the TTL now in force counted from that moment, with the cache now enabled; no agent is asked. *)
+Theorem c07_reconf_cache_same_verdict :
+  forall (H K : str -> str) cf0 bc0 ops,
+    (forall a b, (In (RX (XAtomic (OReq a))) ops \/ exists id, In (RX (XBegin id a)) ops) ->
+                 (In (RX (XAtomic (OReq b))) ops \/ exists id, In (RX (XBegin id b)) ops) ->
+                 K (q_prompt a) = K (q_prompt b) -> q_prompt a = q_prompt b) ->
+    forall i cf bc e q rp,
+      nth_error (rtrace H K cf0 bc0 ops) i = Some (RvOp cf bc e) -> xreply e = Some (q, rp) -> r_cached rp = true ->
+      exists j ej cfj qj rj tj,
+        (j < i)%nat /\ nth_error (rtrace H K cf0 bc0 ops) j = Some ej /\ rreply ej = Some (cfj, qj, rj) /\
+        rdone_at ej = Some tj /\ q_prompt qj = q_prompt q /\ r_cached rj = false /\
+        r_core rp = r_core rj /\ r_core rj = outcome H cfj qj /\
+        q_time q - tj < cf_ttl cf /\ cf_cache cf = true /\
+        r_exec_called rp = false /\ r_assess_called rp = false.
+Proof. exact reconf_cache_same_verdict_proof. Qed.
+Print Assumptions c07_reconf_cache_same_verdict.
+
+(* Token conjunct, across reconfiguration: every token on every reply is bound to the hash of
+   exactly the prompt being answered, sits on a not-blocked reply, and goes back to a request for
+   this prompt (itself, under the configuration now in force, unless the reply is a cached one)
+   at which the assessor said PERMIT and whose issuer is the assessor's name of that moment. *)
+Theorem c07_reconf_token_bound :
+  forall (H K : str -> str) cf0 bc0 ops,
+    (forall a b, (In (RX (XAtomic (OReq a))) ops \/ exists id, In (RX (XBegin id a)) ops) ->
+                 (In (RX (XAtomic (OReq b))) ops \/ exists id, In (RX (XBegin id b)) ops) ->
+                 K (q_prompt a) = K (q_prompt b) -> q_prompt a = q_prompt b) ->
+    forall i cf bc e q rp t,
+      nth_error (rtrace H K cf0 bc0 ops) i = Some (RvOp cf bc e) -> xreply e = Some (q, rp) ->
+      c_token (r_core rp) = Some t ->
+      tk_hash t = H (q_prompt q) /\ c_blocked (r_core rp) = false /\
+      exists j ej cfj qj rj,
+        (j <= i)%nat /\ nth_error (rtrace H K cf0 bc0 ops) j = Some ej /\ rreply ej = Some (cfj, qj, rj) /\
+        q_prompt qj = q_prompt q /\ r_cached rj = false /\ (r_cached rp = false -> j = i /\ cfj = cf) /\
+        q_assess qj = VPermit /\ tk_issuer t = cf_assessor cfj.
+Proof. exact reconf_token_bound_proof. Qed.
+Print Assumptions c07_reconf_token_bound.
+
+(* Two loop objects, each reconfigured at will: reconfiguring one changes nothing of the other. *)
+Theorem c07_reconf_loops_isolated :
+  forall (H K : str -> str) cf0 cf1 bc0 bc1 tops b,
+    proj b (rsys_trace H K cf0 cf1 bc0 bc1 tops) =
+    rtrace H K (if b then cf1 else cf0) (if b then bc1 else bc0) (proj b tops).
+Proof. exact reconf_loops_isolated_proof. Qed.
+Print Assumptions c07_reconf_loops_isolated.
 
 (* Generated-data obligations: the table obtained on this run by calling the
    real _apply_gate_logic on every combination is the model's gate, and it
